@@ -31,6 +31,11 @@ def obligations(tier):
            bounds="19 constructor cases (incl. hash dictionaries and boolean arrays nested in contributing extensions) x (kwargs, reversed kwargs, parse, round trip without id, custom_properties, bundle member, id=None, every nested dictionary in the opposite order); explicit id kept"),
         CH("custom_observable_ids", H, "custom_observable", t, mode="E1s", functions=F[:1] + ["stix2.custom._custom_observable_builder"],
            bounds="registered custom observable whose contributors are 2 own properties, an own property with a default, extensions and defanged: every presence vector x ordinary/falsy values (incl. 10^21) x (kwargs, custom_properties, parse)"),
+        CH("timestamp_contributors_across_formats", H, "timestamp_contributors", t, mode="E1s", functions=F[:1] + F[2:3],
+           bounds="4 instants (0-6 fraction digits) as text or datetime x three custom observables whose contributing timestamp has precision millisecond-exact / millisecond-min / any and network-traffic.start, "
+                  "built in each rotation of the order, twice: every id is the UUIDv5 of the text that object writes, and survives a round trip"),
+        CH("distinct_values_distinct_ids", H, "distinct_values_distinct_ids", t, mode="E1s", functions=F[:1],
+           bounds="every ordered pair of 11 texts (unpaired surrogates, U+FFFD, '?', astral, escaped spellings, NUL, case / trailing blank) as the contributing value of 3 observable types: accepted texts get their own UUIDv5, different texts different ids"),
         CH("make_json_serializable", H, "json_serializable", t, functions=F[2:3], bounds="int unbounded, bool, str <= 3, nested list/dict, None"),
     ] + canonical_bytes(tier)
 
